@@ -213,8 +213,22 @@ def _strides(ctx, f):
     bad = []
     cases = 0
     kinds = set()
+    # lengths: a dense low range, plus the neighbourhood of every constant the unit compares a length with
+    # (thresholds that switch to another code path)
+    thresholds = set()
+    for g in [f] + [h for h in _PROG[0].fns_in(f.file) if h is not f]:
+        for b in g.blocks.values():
+            if b.cond is None:
+                continue
+            for nd in walk(b.cond):
+                if nd.get('op') == 'bin' and nd['o'] in ('<', '<=', '>', '>='):
+                    for k_ in nd['k']:
+                        c_ = const_of(k_)
+                        if c_ is not None and 64 < c_ <= (1 << 16):
+                            thresholds.add(c_)
+    extra = sorted(set(x for t in thresholds for x in (t - 1, t, t + 1, t + 7, 2 * t + 3)))
     for align in range(8):
-        for L in list(range(0, 41)) + [63, 64, 65, 100, 255, 256, 257]:
+        for L in list(range(0, 41)) + [63, 64, 65, 100, 255, 256, 257] + extra:
             cases += 1
             try:
                 calls = trace_calls(_PROG[0], f, {data_p: BASE + align, len_p: L})
